@@ -189,7 +189,7 @@ def run_case(ctx, rep, spec, cn, posname, pos, fields, limit, serial, model, pat
                 if nbad <= 2:
                     rep.fail(what, dict(case, pos=pos, pixel=[px, py], field=fname))
             elif batch is not None and mode in ("smallint", "levelconst", "affine"):
-                cfg = {"op": "column", "fixed": True, "g": J(spec["geo_low"][cn]), "G": J(G), "d0": J(spec["dx0"][cn]), "pos": J(pos),
+                cfg = {"op": "column", "fixed": True, "N": spec["grid0"][cn], "g": J(spec["geo_low"][cn]), "G": J(G), "d0": J(spec["dx0"][cn]), "pos": J(pos),
                        "levels": [[{"a": a, "vals": [J(float(v)) for v in vals]} for a, vals in bs] for bs in levels]}
                 batch.append((case, (px, py), float(got), float(garr[py, px]) if do_grid else None, cfg))
     if do_grid and not flist:
@@ -209,6 +209,7 @@ def flush_model(rep, batch):
     bad = 0
     for case, pix, got, gl, cfg in batch:
         r = rs[json.dumps(cfg, sort_keys=True)]
+        rep.count("theorem-hypothesis-holds" if r.get("wf0") else "theorem-hypothesis-fails")
         if r.get("result") is None:
             ok = False
         else:
